@@ -12,33 +12,10 @@
 From Coq Require Import List ZArith NArith String Bool Lia.
 From SCC Require Import Base.Sexp Lang.CoreSyn Sem.AxSem Sem.CoreSem Model.Backend Model.Uniquify Model.Focus
      Model.FocusCheck Proof.FocusKont Proof.FocusRel Proof.FocusMono.
+From SCC Require Import Model.FocusGuard.
 Import ListNotations.
 Open Scope list_scope.
 Open Scope N_scope.
-
-(* ---------- kind clashes ---------- *)
-Definition is_kret (kv : kval) : bool := match kv with KRet _ => true | _ => false end.
-Definition by_name (pv : pval) : bool := match pv with PThunk _ _ _ | PDelay _ => true | _ => false end.
-Definition clash_val (pv : pval) (kv : kval) : bool := is_kret kv && by_name pv.
-Definition clash_cut (cd : bool) (p : cterm) (e : cenv) (kv : kval) : bool :=
-  match p with
-  | CMu _ _ _ _ => cd && is_kret kv
-  | CXVar _ v _ => match clookup e v with Some (BP pv) => clash_val pv kv | _ => false end
-  | _ => false
-  end.
-Definition clash_config (ps : cprog) (c : config) : bool :=
-  match c with
-  | Run (CCut pr ty k) e =>
-      match pr, k with
-      | CXtor _ _ _ _, _ => false
-      | _, CXtor _ _ _ _ => false
-      | COp _ _ _, _ => false
-      | _, _ => match khead k e with inl kv => clash_cut (is_codata ps ty) pr e kv | inr _ => false end
-      end
-  | App (MCutK k e) (BP pv) => match khead k e with inl kv => clash_val pv kv | inr _ => false end
-  | App (MCutP cd pr e) (BK kv) => clash_cut cd pr e kv
-  | _ => false
-  end.
 
 Lemma fs2c_xcase : forall c cls ty, fs2c_term (FsXCase c cls ty) = CXCase c (map fs2c_clause cls) ty.
 Proof. intros. reflexivity. Qed.
